@@ -44,7 +44,11 @@ def check(ctx):
             if e.func.startswith(eng0.factory.qual + "."):
                 continue
             node = e.node
-            key = (e.file, node.value.lineno, node.value.col_offset) if isinstance(node, ast.Subscript) else (e.file, e.line, 0)
+            bn = e.a.get("base_node")
+            if bn is not None:
+                key = (e.file, bn.lineno, bn.col_offset)
+            else:
+                key = (e.file, node.value.lineno, node.value.col_offset) if isinstance(node, ast.Subscript) else (e.file, e.line, 0)
             covered.setdefault(key, []).append((cls, e))
         for ent, p, e in cat.all_events("REGTOPCALL", "LOOP"):
             if e.func.startswith(eng0.factory.qual + "."):
@@ -86,66 +90,86 @@ def check(ctx):
                         best = f
         return best
 
-    def flow(node, path, depth=0):
-        """Positions (file, line, col) of subscript bases the value of expression `node` reaches, or None if it escapes."""
-        if depth > 6:
+    def flow(node, path, idx=(), depth=0):
+        """Positions (file, line, col) of subscript bases the value of expression `node` reaches, or None if it escapes.
+        `idx` is the position of the value inside nested displays that `node` denotes (() = node is the value itself)."""
+        if depth > 8:
             return None
         par = parents.get(node)
-        if isinstance(par, ast.Subscript) and par.value is node:
-            return [(path, node.lineno, node.col_offset)]
         f = enclosing(node)
         if f is None:
             return None
 
-        def name_uses(var, scope_nodes, after=None):
+        def name_uses(var, scope_nodes, binder=None):
             out = []
             for st in scope_nodes:
                 for n in ast.walk(st):
                     if isinstance(n, ast.Name) and n.id == var:
                         if isinstance(n.ctx, ast.Load):
                             out.append(n)
-                        elif n is not after:
+                        elif n is not binder:
                             return None          # re-bound: give up
             return out
 
-        def follow(var, scope_nodes, binder=None):
+        def follow(var, scope_nodes, binder, idx2, path2=path):
             uses = name_uses(var, scope_nodes, binder)
             if not uses:
                 return None
             acc = []
             for u in uses:
-                r = flow(u, path, depth + 1)
+                r = flow(u, path2, idx2, depth + 1)
                 if r is None:
                     return None
                 acc += r
             return acc
-        if isinstance(par, ast.Assign) and par.value is node and len(par.targets) == 1 and isinstance(par.targets[0], ast.Name):
-            return follow(par.targets[0].id, f.node.body, par.targets[0])
+        # the value itself, used as the base of a subscript
+        if not idx and isinstance(par, ast.Subscript) and par.value is node and not isinstance(par.slice, ast.Slice):
+            return [(path, node.lineno, node.col_offset)]
+        # keyed by the address in another form: `self.addr in X` / `X.get(self.addr ..)` (REGADDR events carry these positions)
+        if not idx and isinstance(par, ast.Compare) and node in par.comparators:
+            return [(path, node.lineno, node.col_offset)]
+        if not idx and isinstance(par, ast.Attribute) and par.value is node and par.attr == "get" and isinstance(parents.get(par), ast.Call):
+            return [(path, node.lineno, node.col_offset)]
+        # a slice of a display keeps the elements' positions unknown but their kind: treat as the same display
+        if idx and isinstance(par, ast.Subscript) and par.value is node and isinstance(par.slice, ast.Slice):
+            sl = par.slice
+            def cst(x, dflt):
+                if x is None:
+                    return dflt
+                return x.value if isinstance(x, ast.Constant) and isinstance(x.value, int) and x.value >= 0 else None
+            lo, hi, stp = cst(sl.lower, 0), cst(sl.upper, 10 ** 9), cst(sl.step, 1)
+            if lo is None or hi is None or stp != 1:
+                return None
+            if not (lo <= idx[0] < hi):
+                return []        # this element is not part of the slice
+            return flow(par, path, (idx[0] - lo,) + idx[1:], depth + 1)
+        # element of a display
         if isinstance(par, (ast.Tuple, ast.List)):
-            loop = parents.get(par)
-            if isinstance(loop, ast.For) and loop.iter is par and isinstance(loop.target, ast.Name):
-                return follow(loop.target.id, loop.body, loop.target)
+            return flow(par, path, (par.elts.index(node),) + idx, depth + 1)
+        # bound to a local
+        if isinstance(par, ast.Assign) and par.value is node and len(par.targets) == 1 and isinstance(par.targets[0], ast.Name):
+            return follow(par.targets[0].id, f.node.body, par.targets[0], idx)
+        # iterated by a for statement: the target stands for an element of the display
+        if isinstance(par, ast.For) and par.iter is node and idx:
+            rest = idx[1:]
+            tgt = par.target
+            if isinstance(tgt, ast.Name):
+                return follow(tgt.id, par.body, tgt, rest)
+            if isinstance(tgt, (ast.Tuple, ast.List)) and rest and rest[0] < len(tgt.elts) and isinstance(tgt.elts[rest[0]], ast.Name):
+                t2 = tgt.elts[rest[0]]
+                return follow(t2.id, par.body, t2, rest[1:])
             return None
-        if isinstance(par, ast.Call) and node in par.args and isinstance(par.func, ast.Attribute) \
+        # passed to a method of the protocol
+        if not idx and isinstance(par, ast.Call) and node in par.args and isinstance(par.func, ast.Attribute) \
                 and isinstance(par.func.value, ast.Name) and par.func.value.id == "self":
             cands = methods_by_name.get(par.func.attr, [])
             if len(cands) != 1:
                 return None
             g = cands[0]
-            idx = par.args.index(node) + (0 if g.is_static else 1)
-            if idx >= len(g.params):
+            k = par.args.index(node) + (0 if g.is_static else 1)
+            if k >= len(g.params):
                 return None
-            pname = g.params[idx]
-            uses = name_uses(pname, g.node.body)
-            if not uses:
-                return None
-            acc = []
-            for u in uses:
-                r = flow(u, g.file, depth + 1)
-                if r is None:
-                    return None
-                acc += r
-            return acc
+            return follow(g.params[k], g.node.body, None, (), g.file)
         return None
 
     for key, node in sorted(sites.items()):
@@ -155,10 +179,13 @@ def check(ctx):
         if not reached:
             continue
         via = []
+        complete = True
         for pos in reached:
-            via += covered.get(pos, [])
-        via = [(c, e) for c, e in via if e.a["reg"] == node.attr]
-        if via:
+            got = [(c, e) for c, e in covered.get(pos, []) if e.a["reg"] == node.attr]
+            if not got:
+                complete = False     # a use that is not a keyed access (or is never reached): the site stays uncovered
+            via += got
+        if via and complete:
             covered[key] = via
     for key, node in sorted(sites.items()):
         evs = covered.get(key)
@@ -247,6 +274,27 @@ def check(ctx):
             ctx.ob("I-FRESH", "container of %s for a new address is created per call (%s)" % (e.a["reg"], cls_short(b.a["cls"])),
                    fresh_ok, where=where(e), function=e.func, construct="buildProtocol/%s/container" % e.a["reg"],
                    msg="container stored for %s is %s (must be this address's existing one or a fresh dict()/deque())" % (e.a["reg"], show(v)))
+        # a registry is also prepared on a path that found the address already present (addr in registry), and by setdefault
+        for c in p.conds:
+            t, pol = c.term, c.pol
+            while isinstance(t, tuple) and t and t[0] == "not":
+                t, pol = t[1], not pol
+            if isinstance(t, tuple) and t and t[0] == "cmp" and t[1] in ("in", "not in") and t[2] == ("param", "addr") \
+                    and isinstance(t[3], tuple) and t[3][:1] == ("regtop",):
+                if (t[1] == "in") == bool(pol):
+                    seen.add(t[3][1])
+        for e in p.events:
+            if e.kind == "REGTOPCALL" and e.a["name"] == "setdefault":
+                args = e.a["args"]
+                key_ok = bool(args) and args[0] == ("param", "addr")
+                seen.add(e.a["reg"])
+                ctx.ob("I-BUILD-KEY", "buildProtocol keys %s by addr (%s)" % (e.a["reg"], cls_short(b.a["cls"])), key_ok, where=where(e),
+                       function=e.func, construct="buildProtocol/%s/key" % e.a["reg"],
+                       msg="registry %s filled under key %s" % (e.a["reg"], show(args[0]) if args else "?"))
+                ctx.ob("I-FRESH", "container of %s for a new address is created per call (%s)" % (e.a["reg"], cls_short(b.a["cls"])),
+                       len(args) > 1 and _is_fresh_container(args[1]), where=where(e), function=e.func,
+                       construct="buildProtocol/%s/container" % e.a["reg"],
+                       msg="container stored for %s is %s (must be a fresh dict()/deque())" % (e.a["reg"], show(args[1]) if len(args) > 1 else "?"))
         ctx.ob("I-BUILD-ALL", "buildProtocol prepares all registries (%s)" % cls_short(b.a["cls"]), seen >= set(regs),
                where=where(b), construct="buildProtocol/%s/registries" % cls_short(b.a["cls"]),
                msg="registries not prepared for the address: %s" % sorted(set(regs) - seen))
@@ -255,6 +303,7 @@ def check(ctx):
     shared = []
     fac_fields = {}
     id_fields = set()
+    alloc_funcs = set()
     for cls in a.protos:
         cat = catalogue(a, cls)
         for ent, p, e in cat.all_events("SETATTR", "SETITEM", "SHAREDMUT", "FACRET", "REGTOP", "UNREGTOP"):
@@ -275,6 +324,7 @@ def check(ctx):
             elif e.kind in ("REGTOP", "UNREGTOP"):
                 shared.append(e)
             elif e.kind == "FACRET":
+                alloc_funcs.add(e.a["func"])
                 for fld in fac_fields_of(e.a["inner"]):
                     id_fields.add(fld)
     seen_sites = set()
@@ -290,7 +340,9 @@ def check(ctx):
     for fld, evs in sorted(fac_fields.items()):
         e = evs[0]
         in_factory = e.func.startswith(eng0.factory.qual + ".")
-        ok = in_factory and fld in id_fields
+        # written by the identifier allocator itself (inside its frame), or the field its result is computed from
+        in_alloc = all(x.func in alloc_funcs or any(fr[2] in alloc_funcs for fr in x.stack) for x in evs)
+        ok = in_factory and (fld in id_fields or in_alloc)
         ctx.ob("I-FACFIELD", "factory.%s written only by the identifier allocator" % fld, ok, where=where(e), function=e.func,
                construct="factory.%s/write/%s" % (fld, e.func),
                msg="factory attribute %s is written from protocol-reachable code outside the identifier allocator" % fld)
